@@ -106,6 +106,28 @@ Definition optimal_assign : list nat :=
   match scan_best perm_score (all_perms (seq 0 K)) None with Some (p, _) => p | None => [] end.
 End Assign.
 
+(* integer score matrices: the code overwrites picked rows / columns with np.iinfo(dtype).min (a value
+   an entry may itself have) instead of -inf *)
+Section AssignInt.
+Open Scope Z_scope.
+Variables (K : nat) (Sc : nat -> nat -> Z) (bottom : Z).
+Definition key_int (R C : list nat) (p : nat * nat) : Z :=
+  if avail R C p then Sc (fst p) (snd p) else bottom.
+Fixpoint argmax_int (key : nat * nat -> Z) (l : list (nat * nat)) (best : nat * nat) : nat * nat :=
+  match l with
+  | [] => best
+  | c :: r => if key best <? key c then argmax_int key r c else argmax_int key r best
+  end.
+Definition pick_int (R C : list nat) : nat * nat :=
+  match cells K with [] => (0%nat, 0%nat) | c :: r => argmax_int (key_int R C) r c end.
+Fixpoint greedy_int (fuel : nat) (R C : list nat) (acc : list (nat * nat)) : list (nat * nat) :=
+  match fuel with
+  | 0%nat => acc
+  | S f => let p := pick_int R C in greedy_int f (fst p :: R) (snd p :: C) (p :: acc)
+  end.
+Definition greedy_assign_int : list nat := map (fun i => lookup i (greedy_int K [] [] [])) (seq 0 K).
+End AssignInt.
+
 (* ------------------------------------------------------------------------------------------ *)
 (* _parameterized_vector_norm and _ScoreMatrix (permutation_alignment.py:358-419), one bin      *)
 Inductive metric := Cos | Euclid | Multiply.
